@@ -45,7 +45,10 @@ def schemaOfJson (j : Json) : Except String Schema := do
   let parent ← (← argArr j "parent").mapM fun x => match x with
     | .null => pure none
     | v => do pure (some (← fromJson? v))
-  pure { nattrs := ← argNat j "nattrs", keys := keys, parent := parent }
+  let cbd := match j.getObjValAs? Bool "classBitsDiffer" with
+    | .ok b => b
+    | .error _ => false
+  pure { nattrs := ← argNat j "nattrs", keys := keys, parent := parent, classBitsDiffer := cbd }
 
 def pairOfJson (j : Json) : Except String (Nat × Json) := do
   match j with
